@@ -17,6 +17,52 @@ NOT_APPLICABLE = {
 
 # property id -> dict(level, text, note, technique, design_ref, module)
 CLAIMED = {
+    "C08": dict(
+        level="exploration",
+        technique="deterministic simulation: seeded histories of compress/repack/condense/tdms2rtdc over a population of generated files (writer-made and raw-h5py storage layouts), tool chains, structural input/output oracle through h5py and dclab; each tool call in a forked child",
+        design_ref="DESIGN.md section 4 (C08)",
+        text=("Seeded histories over a small population of files: inputs come from dclab's writer (optionally with basins) and from a "
+              "raw-h5py layout generator (contiguous, chunked, gzip, lzf, Zstd<5, Zstd>=5, chunks longer than the data, variable- and "
+              "fixed-length logs incl. non-ASCII, empty logs/tables/features, compound tables with attributes, internal/file/mapped "
+              "basins with one or several definitions, defect-marking software versions, unknown features); compress, repack (+- strip "
+              "logs/basins) and condense (+- ancillary/basin features) are applied to any file so that chains arise, tdms2rtdc runs on a "
+              "shipped fixture. After each task input and output are compared through raw h5py and through dclab (all feature kinds, "
+              "logs, table cells and attributes, root metadata except version branding, decoded basin definitions, map features, "
+              "internal basin data) minus what was stripped and plus the command log; condense: every scalar feature the input offers "
+              "under the options equals the stored one; sha-256 of every pre-existing file unchanged; compress/repack re-applied to their "
+              "own output change no data."),
+        note=("Sampling. Each task runs in a forked grandchild so that a native crash is a violation, not a dead run. Generated inputs "
+              "carry self-consistent metadata; zero-length datasets count as no data; tdms coverage: three no-video fixtures."),
+    ),
+    "C09": dict(
+        level="exploration",
+        technique="deterministic simulation: seeded histories of split/join/round-trip over generated measurements with differing feature sets and acquisition stamps, time-zone and chunk-size knobs, model of concatenation/offset arithmetic",
+        design_ref="DESIGN.md section 4 (C09)",
+        text=("Seeded histories over generated measurements (1-40 events; per-file feature sets with single, several or consecutive "
+              "missing features and features recomputable for some inputs only; date/time with and without fractional seconds, equal "
+              "stamps, stamps inside one second, day/month/year crossings; all-zero boundary images; logs, tables, all feature kinds) "
+              "run dclab.cli.split (n in {1, divisor, non-divisor, N, >N}, both skip flags), dclab.cli.join of 2-5 inputs in shuffled "
+              "order and split->join round trips under a per-run fixed-offset time zone. Split: the parts concatenate to the original, "
+              "no part exceeds n. Join: chronological order with ties in the given order, features = those available in every input, "
+              "values equal the concatenation, time/frame continued by the acquisition offsets, index 1..N, index_online increasing, "
+              "every source log retained as src-#k_name; round trip reproduces the feature data."),
+        note=("Sampling. Time tolerance 1e-6 s (the implementation forms offsets from float64 epoch seconds); everything else exact. "
+              "Only fixed-offset time zones. Not judged: index_online beyond monotonicity, trace names not common to all inputs, "
+              "joins without any common feature, .tdms inputs."),
+    ),
+    "C13": dict(
+        level="exploration",
+        technique="deterministic simulation: closure of the integrity checker over every producing operation of the file world plus seeded single/paired storage corruptions of durable state",
+        design_ref="DESIGN.md section 4 (C13)",
+        text=("Seeded histories produce files through the writer (complete metadata), filtered/unfiltered export, compress, repack, "
+              "condense, split and join; every product must pass check_dataset without violations and a file and its compress/repack "
+              "copy must give the same violation list. Copies of valid products then receive one or two raw-h5py corruptions (feature "
+              "length, contour count, ROI size, unknown feature, deleted mandatory key, non-enumerating index, channel/laser/sample "
+              "counts, external link, non-positive set-up value); each must be reported as a violation by a key- or feature-specific "
+              "cue, and for metadata-only corruptions the copy must report the same list."),
+        note=("Sampling. Mandatory-key lists and cue texts are frozen in the check. Failing producers are counted, not judged. "
+              "Two known findings are listed in known_findings.json (compress repairs metadata; trace-only files skip the fl checks)."),
+    ),
     "C17": dict(
         level="exploration",
         technique="deterministic simulation: seeded call histories over the memoised functions with a colliding argument pool, cache-capacity knob, mutator and file-modifier environment actors on a virtual clock; fresh-computation oracle",
@@ -128,7 +174,7 @@ CLAIMED = {
 
 # properties whose checks are still under construction (kept in not_applicable with that
 # reason until the check exists, so that MANIFEST.json is valid and honest at every commit)
-PENDING = ["C02", "C07", "C08", "C09", "C10", "C13", "C14"]
+PENDING = ["C02", "C07", "C14"]
 for _p in PENDING:
     if _p not in CLAIMED:
         NOT_APPLICABLE[_p] = "not claimed yet: check under construction (designed in DESIGN.md section 4; will be claimed once its machinery is committed)"
